@@ -48,6 +48,8 @@ import (
 	"encoding/json"
 	"errors"
 	"fmt"
+	persistencepb "go.temporal.io/server/api/persistence/v1"
+	replicationpb "go.temporal.io/server/api/replication/v1"
 	"os"
 	"os/exec"
 	"runtime"
@@ -258,6 +260,7 @@ type c08World struct {
 	base        map[string]bool // goroutines of the bubble that belong to the test framework
 	steps       int
 	artefact    bool // the trace used `open!`
+	floodID     int64
 	noTick      bool // `open!`: registrations of this op do not see time pass
 	viol        []map[string]any
 }
@@ -676,6 +679,31 @@ func (w *c08World) exec(op string) string {
 			select {
 			case w.incs[k].srv.in <- ev[repReq]{v: ackReq(wv)}:
 			default:
+			}
+		}
+	case "stall", "unstall": // the cluster behind incarnation k's stream stops / resumes reading: the sender's Send blocks
+		if k := n(1); k < len(w.incs) {
+			w.incs[k].srv.SetStall(f[0] == "stall")
+		}
+	case "flood": // the source of receiver k sends up to n task batches, each one task owned by shard 1 of the other cluster,
+		// for as long as the receiver takes them (it stops taking when a hand-off blocks on a full channel)
+		if k := n(1); k < len(w.incs) && w.incs[k].cli != nil {
+			wf := wfFor(4, 1)
+			for j := 0; j < n(2); j++ {
+				w.floodID++
+				id := 1000 + w.floodID
+				pt := &replicationpb.ReplicationTask{SourceTaskId: id, TaskType: 1,
+					RawTaskInfo: &persistencepb.ReplicationTaskInfo{NamespaceId: "ns", WorkflowId: wf, TaskId: id, RunId: fmt.Sprintf("run-%d", id)}}
+				synctest.Wait()
+				sent := false
+				select {
+				case w.incs[k].cli.in <- ev[repResp]{v: msgResp(id+1, pt)}:
+					sent = true
+				default:
+				}
+				if !sent {
+					break
+				}
 			}
 		}
 	case "selfend": // receiver k ends on its own: its Send to the source cluster fails while it forwards an acknowledgement
@@ -1141,7 +1169,7 @@ func TestC08(t *testing.T) {
 		// property monitor alone: their lines go to the protocol file as comments
 		monitorOnly := false
 		for _, op := range r.ops {
-			if f := strings.Fields(op); f[0] == "ack" || f[0] == "sendfail" {
+			if f := strings.Fields(op); f[0] == "ack" || f[0] == "sendfail" || f[0] == "stall" || f[0] == "unstall" || f[0] == "flood" {
 				monitorOnly = true
 			}
 		}
